@@ -65,7 +65,12 @@ def main():
         lst.sort(key=lambda c: c.get("size", 0))
         buckets = sorted({c["bucket"] for c in lst})
         first = lst[0]
-        name = slug(region if b is None else region + "-" + b.split(":", 1)[-1])
+        full = region if b is None else region + "-" + b.split(":", 1)[-1]
+        name = slug(full)
+        if len(re.sub(r"[^A-Za-z0-9]+", "-", full).strip("-")) > 80:  # truncated slugs collide: keep them apart
+            import hashlib
+
+            name = name[:70] + "-" + hashlib.sha1(full.encode()).hexdigest()[:8]
         path = os.path.join("known", pid, name + ".json")
         json.dump({"property": pid, "bucket": first["bucket"], "detail": first["detail"], "case": first["case"]}, open(os.path.join(HOME, path), "w"), indent=1, default=str)
         entries.append({"id": f"KF-{pid}-{name}", "properties": [pid], "status": "known", "what": first["detail"][:240].replace("\n", " "),
